@@ -51,6 +51,15 @@ func aplFn(tag int) dataframe.FuncType {
 			copy(out, xs)
 			return out
 		}
+	case 15:
+		return func(xs []any) any {
+			if len(xs) == 0 || xs[0] == nil {
+				return nil
+			}
+			out := make([]any, len(xs), len(xs)+2)
+			copy(out, xs)
+			return append(out, xs[0], xs[0])
+		}
 	case 14:
 		return func(xs []any) any {
 			out := []any{}
@@ -109,6 +118,8 @@ func genApl(r *Rng, tier string) *Enc {
 		tag = 10 // mixed result kinds: a single marker for rows starting with nil or text, the whole row otherwise
 	} else if axis == 1 && r.Chance(10) {
 		tag = 13 // an error VALUE as the single result of some rows
+	} else if axis == 1 && r.Chance(12) {
+		tag = 15 // a slice LONGER than the row for most rows, untyped nil for rows starting with nil
 	}
 	if axis == 0 {
 		tag = r.Intn(8)
